@@ -151,6 +151,7 @@ static void wf_case(uint64_t idx, void *ctx)
 int main(int argc, char **argv)
 {
     mc_init("C17", argc, argv);
+    libast_debug_level = (unsigned) mc_dlevel();        /* --dlevel=N: the whole run at runtime debug level N (default 0) */
     int core = (int) mc_arg_int("core", 0);
     NFRAG = (int) mc_arg_int("frags", 2);
     build(core);
